@@ -1,12 +1,24 @@
 import vlib
 
+def classify(case_line):
+    # The dedicated stream:unknown-action cases (every 10th) make rules invalid by an action outside the validator's
+    # backendAction set; the main stream never does, so nothing else can hide behind this key.
+    if "stream:unknown-action" in case_line.get("tags", []):
+        return "rule-action-not-validated"
+    return None
+
+
 CFG = dict(
+    classify=classify,
     imports=["From Verif.Common Require Import Packet PolicyRef Labels.", "From Verif.C05 Require Import Model Spec."],
     checker="check_case",
     n=dict(quick=120, thorough=10000),
     shard=15,
     rule="histories of 10-37 datastore updates over 4 profiles, 4 policies, 3 tiers, 3 workload + 2 host endpoints, fed through "
-         "the real ValidationFilter into the real ActiveRulesCalculator; values are valid or made invalid in one of ~20 ways; "
+         "the real ValidationFilter into the real ActiveRulesCalculator (3 of 4 cases: callbacks compared message for message) or "
+         "into the whole real calculation graph + EventSequencer (every 4th case: proto.ActiveProfileUpdate/Remove compared as "
+         "the dataplane's profile view after every update); values are valid or made invalid in one of ~20 ways; every 10th case "
+         "is the unknown-rule-action stream; "
          "non-trivial = the deny stand-in was emitted for a referenced missing profile AND the history contains a late creation, "
          "a delete while referenced, or an invalid version written over a valid one; distinct by update sequence",
     trusted=["Coq 8.16.1 kernel + vm_compute",
